@@ -297,6 +297,29 @@ def check_c06(tier, seed):
             if wraps or not slot.startswith("output"):
                 rep.distinct.add(core.digest(groups[i][0]))
     rep.extra["closure_runs_reaching_final_reduce"] = closed
+    # the argument-supplying facade: source programs of MC_Lang lowered by Workspace, their arguments supplied in one call,
+    # in two calls and one by one (Trace_Lang!FacadeEv)
+    from . import langcheck
+    lc = langcheck.gen(rep, ["out_amount", "out_datum", "mint_amount", "meta_value", "signer", "min_amount"], 0 if quick else 1,
+                       [1], "c06_facade", workers=6)
+    rng = random.Random(seed)
+    rng.shuffle(lc)
+    lc = lc[:120 if quick else 2000]
+    fjobs, fevs, ftr = langcheck.run_cases(lc, "c06_facade", seed, 4, layouts=(0,), facade=True)
+    rep.add_trace(ftr)
+    rep.extra["facade_programs"] = len(lc)
+    langcheck.collect(rep, ftr, lc, fjobs, lambda b: b["why"] in ("facade-residual", "facade-history") or
+                      (b["why"] == "panic" and b["detail"].get("stage") == "facade"),
+                      lambda sig, b, c: f"{b['why']}|{b['detail'].get('calls', '')}")
+    fc = [copy.deepcopy(e) for e in fevs if any(x.get("ev") == "Facade" and x.get("outcome") == "ok" for x in e)][:1]
+    if not fc:
+        raise core.ToolError("canary: no facade run")
+    for x in fc[0]:
+        if x.get("ev") == "Facade":
+            x["two_calls_same"] = False
+    ctr = core.tlc_trace("Trace_Lang", fc, "c06_facade_canary", nproc=1)
+    if not any(x["why"] in ("facade-history", "facade-residual") for x in ctr.bad):
+        raise core.ToolError(f"facade canary not rejected: binding broken ({ctr.bad[:2]})")
     canary_c06(rep, evs)
     rep.samples = [{"slot": meta[7][0], "wraps": meta[7][1], "leaf": meta[7][2], "template": core.untlcify(groups[7][0])},
                    {"trace_events": evs[7][1:5]}]
